@@ -62,7 +62,33 @@ func sentinelsIn(v ssa.Value) []string {
 					rec(a)
 				}
 			} else if inModule(f) {
-				// a module helper: the errors it may return
+				// a module helper: the errors it may return; a parameter among them stands for the argument
+				for i, prm := range f.Params {
+					if i < len(x.Call.Args) && isErrorType(prm.Type()) {
+						wrapped := false
+						allInstrs(f, func(in ssa.Instruction) {
+							if r, isR := in.(*ssa.Return); isR {
+								for _, res := range r.Results {
+									if isErrorType(res.Type()) && (res == ssa.Value(prm) || derivesFromValue(res, prm) || errorfWraps(res, prm)) {
+										wrapped = true
+									}
+									// handed to fmt.Errorf as an operand (converted to interface{} for the variadic list)
+									if call, isC := res.(*ssa.Call); isC && calleeIs(call, "fmt", "Errorf") && prm.Referrers() != nil {
+										for _, pr := range *prm.Referrers() {
+											switch pr.(type) {
+											case *ssa.ChangeInterface, *ssa.MakeInterface:
+												wrapped = true
+											}
+										}
+									}
+								}
+							}
+						})
+						if wrapped {
+							rec(x.Call.Args[i])
+						}
+					}
+				}
 				allInstrs(f, func(in ssa.Instruction) {
 					if r, isR := in.(*ssa.Return); isR {
 						for _, res := range r.Results {
@@ -106,6 +132,8 @@ func sentinelsIn(v ssa.Value) []string {
 
 // mayBeNilErr: conservative "this error value may be nil when control is in
 // block b".
+var mayNilDepth int
+
 func mayBeNilErr(v ssa.Value, b *ssa.BasicBlock) bool {
 	switch x := v.(type) {
 	case *ssa.Const:
@@ -133,6 +161,23 @@ func mayBeNilErr(v ssa.Value, b *ssa.BasicBlock) bool {
 		if f := staticCallee(x); f != nil {
 			if pi := nonNilPreserving(f); pi >= 0 && pi < len(x.Call.Args) {
 				return mayBeNilErr(x.Call.Args[pi], b)
+			}
+			// an error constructor of the module: every return yields a value that is never nil
+			if inModule(f) && len(f.Blocks) > 0 && len(f.Blocks) <= 6 && mayNilDepth < 3 {
+				all, any := true, false
+				mayNilDepth++
+				allInstrs(f, func(in ssa.Instruction) {
+					if r, isR := in.(*ssa.Return); isR && len(r.Results) == 1 && isErrorType(r.Results[0].Type()) {
+						any = true
+						if mayBeNilErr(r.Results[0], in.Block()) {
+							all = false
+						}
+					}
+				})
+				mayNilDepth--
+				if all && any {
+					return false
+				}
 			}
 		}
 	}
@@ -1580,4 +1625,43 @@ func readOnlyPtrParam(f *ssa.Function, i, depth int) bool {
 		}
 	}
 	return true
+}
+
+
+// errorfWraps: v is fmt.Errorf(...) with prm among its operands.
+func errorfWraps(v ssa.Value, prm ssa.Value) bool {
+	call, ok := v.(*ssa.Call)
+	if !ok {
+		return false
+	}
+	f := staticCallee(call)
+	if f == nil || f.Pkg == nil || f.Pkg.Pkg.Path() != "fmt" || f.Name() != "Errorf" {
+		return false
+	}
+	found := false
+	for _, a := range call.Call.Args {
+		walkBack(a, false, func(x ssa.Value) bool {
+			if x == prm {
+				found = true
+			}
+			if al, isAl := x.(*ssa.Alloc); isAl && al.Referrers() != nil {
+				for _, r := range *al.Referrers() {
+					if ia, isIA := r.(*ssa.IndexAddr); isIA && ia.Referrers() != nil {
+						for _, rr := range *ia.Referrers() {
+							if st, isS := rr.(*ssa.Store); isS {
+								if mi, isMI := st.Val.(*ssa.MakeInterface); isMI && mi.X == prm {
+									found = true
+								}
+								if st.Val == prm {
+									found = true
+								}
+							}
+						}
+					}
+				}
+			}
+			return true
+		})
+	}
+	return found
 }
